@@ -310,4 +310,182 @@ theorem C01_patch_inv (τ : List Addr) (entry : Addr) (orig : Code) (exitCode : 
     (ho : Bytes orig) : PatchInv orig (execAll (init τ entry orig exitCode) ops).1 :=
   patchInv_of_ginv (execAll_ginv ho ops _ (init_ginv τ entry orig exitCode)).1
 
+/-! ## Corollaries of the projection theorem -/
+
+private theorem spec_goto_stop (τ x) (sp : Spec) (i : Nat) (a : Addr) (h : (sp.goto τ x i).2 = .stop a) : a ∈ sp.B := by
+  unfold Spec.goto at h
+  cases hj : τ[nextHit sp.B τ i]? with
+  | none => rw [hj] at h; cases h
+  | some b =>
+    rw [hj] at h
+    have hb : b = a := by simpa using h
+    obtain ⟨hlt, hb'⟩ := List.getElem?_eq_some_iff.mp hj
+    rw [← hb, ← hb']
+    exact of_decide_eq_true (firstFrom_hit (fun a => decide (a ∈ sp.B)) τ i hlt)
+
+private theorem spec_goto_B (τ x) (sp : Spec) (i : Nat) : (sp.goto τ x i).1.B = sp.B := by
+  unfold Spec.goto; split <;> rfl
+
+/-- spec states in which `a` can no longer be reported -/
+private def Cleared (a : Addr) (sp : Spec) : Prop := sp.status = .exited ∨ a ∉ sp.B
+
+private theorem cleared_step (τ x) (a : Addr) (sp : Spec) (h : Cleared a sp) (op : Op) (hop : op ≠ .brk a) :
+    Cleared a (sp.step τ x op).1 ∧ (sp.step τ x op).2 ≠ .stop a := by
+  cases hs : sp.status with
+  | exited =>
+    cases op <;> simp only [Spec.step, hs] <;> refine ⟨Or.inl (by first | rfl | exact hs), ?_⟩ <;> (try split) <;> simp
+  | unload =>
+    have ha : a ∉ sp.B := by rcases h with h | h; · rw [hs] at h; cases h
+                             · exact h
+    cases op with
+    | brk b =>
+      simp only [Spec.step, hs]
+      refine ⟨Or.inr ?_, by simp⟩
+      intro hm; rcases List.mem_cons.mp hm with e | hm
+      · exact hop (e ▸ rfl)
+      · exact ha hm
+    | remove b =>
+      simp only [Spec.step, hs]
+      exact ⟨Or.inr (fun hm => ha (List.mem_filter.mp hm).1), by split <;> simp⟩
+    | start =>
+      simp only [Spec.step, hs]
+      exact ⟨Or.inr (by rw [spec_goto_B]; exact ha), fun e => ha (spec_goto_stop τ x sp 0 a e)⟩
+    | cont => simp only [Spec.step, hs]; exact ⟨Or.inr ha, by simp⟩
+  | inProgress =>
+    have ha : a ∉ sp.B := by rcases h with h | h; · rw [hs] at h; cases h
+                             · exact h
+    cases op with
+    | brk b =>
+      simp only [Spec.step, hs]
+      refine ⟨Or.inr ?_, by simp⟩
+      intro hm; rcases List.mem_cons.mp hm with e | hm
+      · exact hop (e ▸ rfl)
+      · exact ha hm
+    | remove b =>
+      simp only [Spec.step, hs]
+      exact ⟨Or.inr (fun hm => ha (List.mem_filter.mp hm).1), by split <;> simp⟩
+    | start => simp only [Spec.step, hs]; exact ⟨Or.inr ha, by simp⟩
+    | cont =>
+      simp only [Spec.step, hs]
+      exact ⟨Or.inr (by rw [spec_goto_B]; exact ha), fun e => ha (spec_goto_stop τ x sp _ a e)⟩
+
+private theorem cleared_run (τ x) (a : Addr) : ∀ (ops : List Op) (sp : Spec), Cleared a sp → .brk a ∉ ops →
+    ∀ o ∈ (Spec.run τ x sp ops).2, o ≠ .stop a := by
+  intro ops
+  induction ops with
+  | nil => intro sp _ _ o ho; cases ho
+  | cons op ops ih =>
+    intro sp h hn o ho
+    obtain ⟨c1, c2⟩ := cleared_step τ x a sp h op (fun e => hn (e ▸ List.mem_cons_self))
+    rw [run_cons] at ho
+    rcases List.mem_cons.mp ho with rfl | ho
+    · exact c2
+    · exact ih _ c1 (fun hm => hn (List.mem_cons_of_mem _ hm)) o ho
+
+private theorem cleared_remove (τ x) (a : Addr) (sp : Spec) : Cleared a (sp.step τ x (.remove a)).1 := by
+  cases hs : sp.status <;> simp only [Spec.step, hs]
+  · exact Or.inr (fun hm => by simpa using (List.mem_filter.mp hm).2)
+  · exact Or.inr (fun hm => by simpa using (List.mem_filter.mp hm).2)
+  · exact Or.inl rfl
+
+/-- **C01_removed_never_stops.**  After `remove a`, as long as `a` is not set again, no answer is `stop a`:
+whatever happened before (`pre`) and whatever is done afterwards (`post`, without `break a`). -/
+theorem C01_removed_never_stops (τ : List Addr) (entry : Addr) (orig : Code) (exitCode : Nat)
+    (pre post : List Op) (a : Addr)
+    (ho : Bytes orig) (hcc : ∀ a ∈ τ, orig a ≠ 0xCC) (hhead : τ.head? = some entry)
+    (hb : NoBreakAtEntry entry (pre ++ post)) (hr : NoRemoveAtEntry entry (pre ++ .remove a :: post))
+    (hpost : .brk a ∉ post) :
+    ∀ o ∈ (execAll (exec (execAll (init τ entry orig exitCode) pre).1 (.remove a)).1 post).2, o ≠ .stop a := by
+  have hb1 : NoBreakAtEntry entry pre := fun o h => hb o (List.mem_append_left _ h)
+  have hb2 : NoBreakAtEntry entry post := fun o h => hb o (List.mem_append_right _ h)
+  have hr1 : NoRemoveAtEntry entry pre := fun o h => hr o (List.mem_append_left _ h)
+  have hr2 : NoRemoveAtEntry entry post :=
+    fun o h => hr o (List.mem_append_right _ (List.mem_cons_of_mem _ h))
+  have hra : Op.remove a ≠ .remove entry := hr _ (List.mem_append_right _ List.mem_cons_self)
+  obtain ⟨_, s1⟩ := C01_simulation τ exitCode orig entry ho hcc hhead pre _ _ (sim_init τ exitCode orig entry) hb1 hr1
+  obtain ⟨_, s2⟩ := C01_simulation_step τ exitCode orig entry ho hcc hhead _ _ s1 (.remove a) (by simp) hra
+  obtain ⟨s3, _⟩ := C01_simulation τ exitCode orig entry ho hcc hhead post _ _ s2 hb2 hr2
+  rw [s3]
+  exact cleared_run τ exitCode a post _ (cleared_remove τ exitCode a _) hpost
+
+private theorem spec_conts (τ x) : ∀ (m : Nat) (sp : Spec), sp.status = .inProgress →
+    ((τ.drop (sp.idx + 1)).filter (fun a => decide (a ∈ sp.B))).length = m →
+    (Spec.run τ x sp (List.replicate (m + 1) .cont)).2
+      = ((τ.drop (sp.idx + 1)).filter (fun a => decide (a ∈ sp.B))).map .stop ++ [.exit x] := by
+  intro m
+  induction m with
+  | zero =>
+    intro sp hs hm
+    have hnil := List.eq_nil_of_length_eq_zero hm
+    have hfd := filter_drop_firstFrom (fun a => decide (a ∈ sp.B)) τ (sp.idx + 1)
+    rw [hnil] at hfd
+    have hge : ¬ firstFrom (fun a => decide (a ∈ sp.B)) τ (sp.idx + 1) < τ.length := by
+      intro hlt; rw [dif_pos hlt] at hfd; cases hfd
+    have hj : τ[nextHit sp.B τ (sp.idx + 1)]? = none := List.getElem?_eq_none_iff.mpr (Nat.not_lt.mp hge)
+    rw [hnil]
+    show (Spec.run τ x sp [.cont]).2 = [.exit x]
+    simp only [Spec.run, Spec.step, hs, Spec.goto, hj]
+  | succ m ih =>
+    intro sp hs hm
+    have hfd := filter_drop_firstFrom (fun a => decide (a ∈ sp.B)) τ (sp.idx + 1)
+    have hlt : firstFrom (fun a => decide (a ∈ sp.B)) τ (sp.idx + 1) < τ.length := by
+      apply Classical.byContradiction; intro hge
+      rw [dif_neg hge] at hfd; rw [hfd] at hm; cases hm
+    rw [dif_pos hlt] at hfd
+    have hj : τ[nextHit sp.B τ (sp.idx + 1)]? = some τ[firstFrom (fun a => decide (a ∈ sp.B)) τ (sp.idx + 1)] :=
+      List.getElem?_eq_getElem hlt
+    have hstep : sp.step τ x .cont
+        = ({ sp with idx := nextHit sp.B τ (sp.idx + 1), status := .inProgress },
+           .stop τ[firstFrom (fun a => decide (a ∈ sp.B)) τ (sp.idx + 1)]) := by
+      simp only [Spec.step, hs, Spec.goto, hj]
+    rw [show List.replicate (m + 1 + 1) Op.cont = .cont :: List.replicate (m + 1) .cont from rfl, run_cons, hstep]
+    rw [hfd] at hm ⊢
+    have := ih { sp with idx := nextHit sp.B τ (sp.idx + 1), status := .inProgress } rfl
+      (by simpa [nextHit] using hm)
+    rw [this]; rfl
+
+/-- **C01_rearm_every_arrival.**  From any stop reached by any history `pre`, continuing until the exit reports
+exactly the later positions of the trace whose address is a breakpoint currently set (`sp.B`, the set maintained by
+the history), each of them, in trace order, then the exit: every arrival at a breakpoint address is reported, be
+it the 1st or the 1000th pass of a loop or a recursion (repeated pcs in `τ`), and nothing else is. -/
+theorem C01_rearm_every_arrival (τ : List Addr) (entry : Addr) (orig : Code) (exitCode : Nat) (pre : List Op)
+    (ho : Bytes orig) (hcc : ∀ a ∈ τ, orig a ≠ 0xCC) (hhead : τ.head? = some entry)
+    (hb : NoBreakAtEntry entry pre) (hr : NoRemoveAtEntry entry pre)
+    (hst : (execAll (init τ entry orig exitCode) pre).1.status = .inProgress) :
+    (execAll (execAll (init τ entry orig exitCode) pre).1
+        (List.replicate (((τ.drop ((execAll (init τ entry orig exitCode) pre).1.idx + 1)).filter
+          (fun a => decide (a ∈ (Spec.run τ exitCode {} pre).1.B))).length + 1) .cont)).2
+      = ((τ.drop ((execAll (init τ entry orig exitCode) pre).1.idx + 1)).filter
+          (fun a => decide (a ∈ (Spec.run τ exitCode {} pre).1.B))).map .stop ++ [.exit exitCode] := by
+  obtain ⟨_, s1⟩ := C01_simulation τ exitCode orig entry ho hcc hhead pre _ _ (sim_init τ exitCode orig entry) hb hr
+  have hsp : (Spec.run τ exitCode {} pre).1.status = .inProgress := by rw [← s1.status]; exact hst
+  have hidx : (execAll (init τ entry orig exitCode) pre).1.idx = (Spec.run τ exitCode {} pre).1.idx := by
+    obtain ⟨_, _, hm⟩ := s1
+    rw [hsp] at hm; exact hm.2.1
+  have hconts : ∀ n, NoBreakAtEntry entry (List.replicate n .cont) ∧ NoRemoveAtEntry entry (List.replicate n .cont) :=
+    fun n => ⟨fun o h => by rw [List.eq_of_mem_replicate h]; simp,
+              fun o h => by rw [List.eq_of_mem_replicate h]; simp⟩
+  obtain ⟨s2, _⟩ := C01_simulation τ exitCode orig entry ho hcc hhead _ _ _ s1 (hconts _).1 (hconts _).2
+  rw [s2, hidx]
+  exact spec_conts τ exitCode _ _ hsp rfl
+
+/-! ## Non-vacuity and sanity tests (the `#guard`s are tests, not proofs) -/
+
+/-- a loop `0x1004 0x1008` executed twice; the hypotheses of the theorems above are satisfiable -/
+example :
+    let τ : List Addr := [0x1000, 0x1004, 0x1008, 0x1004, 0x1008, 0x100c]
+    let orig : Code := fun _ => 0x90
+    let ops : List Op := [.brk 0x1004, .start, .cont, .remove 0x1004, .brk 0x1008, .cont, .cont]
+    Bytes orig ∧ (∀ a ∈ τ, orig a ≠ 0xCC) ∧ τ.head? = some 0x1000 ∧
+    NoBreakAtEntry 0x1000 ops ∧ NoRemoveAtEntry 0x1000 ops := by
+  refine ⟨fun _ => by show (0x90 : Nat) < 256; decide, fun _ _ => by show (0x90 : Nat) ≠ 0xCC; decide,
+    rfl, by decide, by decide⟩
+
+#guard (execAll (init [0x1000, 0x1004, 0x1008, 0x1004, 0x1008, 0x100c] 0x1000 (fun _ => 0x90) 7)
+    [.brk 0x1004, .start, .cont, .remove 0x1004, .brk 0x1008, .cont, .cont]).2
+  == [.ok, .stop 0x1004, .stop 0x1004, .ok, .ok, .stop 0x1008, .exit 7]
+#guard (Spec.run [0x1000, 0x1004, 0x1008, 0x1004, 0x1008, 0x100c] 7 {}
+    [.brk 0x1004, .start, .cont, .remove 0x1004, .brk 0x1008, .cont, .cont]).2
+  == [.ok, .stop 0x1004, .stop 0x1004, .ok, .ok, .stop 0x1008, .exit 7]
+
 end BsVerif.Bp
